@@ -115,6 +115,8 @@ def run(facts, rep, tier):
     nmatch = [n for n, _ in nodes(h["body"], "match") if n.get("src") == "normal" and "StructPropertyRename" in c.ty(n.get("scty"))]
     if rep.floor("C03.D2", "match on the property's naming", len(nmatch), 1):
         got = {}
+        from lib import table_is_plain
+        table_is_plain(rep, "C03.D4", "property-naming", nmatch[0])
         for arm in nmatch[0]["arms"]:
             pk, g, b = norm_arm(arm)
             qs = [re.sub(r"#\w+", "#s", q[0]) for q in quotes_in(facts, arm["body"])]
@@ -177,6 +179,8 @@ def run(facts, rep, tier):
         if rep.floor("C03.D4", "match on the tag type", len(mt), 1):
             got = {}
             cne = ee.canon()
+            from lib import table_is_plain
+            table_is_plain(rep, "C03.D4", "enum-representation", mt[0])
             for arm in mt[0]["arms"]:
                 name = pat_top_variants(arm["pat"])[0].split("::")[-1]
                 qs = quotes_in(facts, arm["body"])
